@@ -431,7 +431,8 @@ def replay(module, path):
         rec = json.load(f)
     kind, case = rec['kind'], rec['case']
     try:
-        with cpu_limit():
+        # a replay uses the largest per-case budget any check asks for (slow is not hung)
+        with cpu_limit(max(CASE_CPU_S, float(rec.get('cpu', 600)))):
             out = module.check_case(kind, case)
         fails = out.fails
         obs = out.obs
